@@ -144,19 +144,26 @@ func calculateNextQuota(
 		}
 	}
 
-	// The minimum limit quota is 1
-	if next < 1 {
-		next = 1
-	}
 	if next < total*MinimumQuotaPercent {
 		next = total * MinimumQuotaPercent
 	}
 
+	// never hand out more than what is left of the global limit; if the limit is
+	// over-committed (remaining < 0, e.g. it was lowered) the quota shrinks by the excess
 	if next-current > remaining {
 		next = current + remaining
 	}
 
 	next = math.Ceil(next)
+
+	if next > total {
+		next = total
+	}
+	// The minimum limit quota is 1. This floor must come last: the clamp above can
+	// yield zero or a negative value, which a gateway would treat as "no limit".
+	if next < 1 {
+		next = 1
+	}
 
 	if flowControlType == proxyv1alpha1.TokenBucket {
 		burst = next / total * float64(upstreamTotal.LimitItemDetail.TokenBucket.Burst)
